@@ -306,7 +306,7 @@ theorem nodeOfPriv_eq (c : CurveT) (s : Scheme) (k : Bytes) (depth idx : Nat) (c
       else match pubOfPriv c k with
         | some pub => .ok { curve := c, scheme := s, priv := some k, pub := pub, depth := depth,
                             index := idx, chainCode := cc, parentFp := fp.take 4 }
-        | none => .error .thirdParty := by
+        | none => .error .value := by
   unfold nodeOfPriv
   cases hv : privValid c k
   · simp [throw, throwThe, MonadExceptOf.throw]
